@@ -462,3 +462,322 @@ Proof.
       replace (heap (set_stack s1 (CRef g cidx :: rest))) with (heap s1) by (destruct s1; reflexivity).
       rewrite Hheap. exact Hs.
 Qed.
+
+(* the debugger's read_array reads EVERY cell of the array; it succeeds when
+   the array lies inside its segment *)
+Lemma read_loop_total rd stride : forall n b,
+  (forall k, (k < n)%nat -> exists x, rd (b + Z.of_nat k * stride) = Ok x) ->
+  exists l, read_loop rd stride n b = Ok l.
+Proof.
+  induction n as [|n IH]; intros b H; [eexists; reflexivity|].
+  destruct (H 0%nat ltac:(lia)) as (x & Hx). replace (b + Z.of_nat 0 * stride) with b in Hx by lia.
+  destruct (IH (b + stride)) as (l & Hl).
+  { intros k Hk. destruct (H (S k) ltac:(lia)) as (y & Hy). exists y.
+    replace (b + stride + Z.of_nat k * stride) with (b + Z.of_nat (S k) * stride) by lia. exact Hy. }
+  exists (x :: l). cbn [read_loop]. rewrite Hx. cbn [rbind]. rewrite Hl. reflexivity.
+Qed.
+
+Lemma read_sub_total h g sg es : 0 <= g -> nth_error h (Z.to_nat g) = Some sg -> 0 < es ->
+  forall bs base, Forall (fun b => fst b <= snd b) bs -> 0 <= base ->
+  base + prod_list (dims bs) * es <= Z.of_nat (length (s_cells sg)) ->
+  exists t, read_sub (cell_leaf h g) es bs base = Ok t.
+Proof.
+  intros Hg Hs Hes. induction bs as [|[lb ub] bs IH]; intros base Hb H0 Hfit.
+  - cbn [read_sub]. unfold cell_leaf. cbn [dims map prod_list] in Hfit.
+    destruct (nth_error (s_cells sg) (Z.to_nat base)) as [c|] eqn:E.
+    + rewrite (get_cell_ok h g base sg c) by assumption. eexists; reflexivity.
+    + apply nth_error_None in E. lia.
+  - inversion Hb as [|? ? Hlu Hb']; subst. cbn [fst snd] in Hlu.
+    change (dims ((lb, ub) :: bs)) with ((ub - lb + 1) :: dims bs) in Hfit. cbn [prod_list] in Hfit.
+    pose proof (prod_dims_pos bs Hb') as Hp.
+    cbn [read_sub].
+    destruct (read_loop_total (read_sub (cell_leaf h g) es bs) (prod_list (dims bs) * es)
+                              (Z.to_nat (ub - lb + 1)) base) as (l & Hl).
+    { intros k Hk.
+      assert (Hk' : Z.of_nat k + 1 <= ub - lb + 1) by lia.
+      assert (Hs' : 0 < prod_list (dims bs) * es) by nia.
+      apply IH; [assumption | nia | nia]. }
+    rewrite Hl. eexists; reflexivity.
+Qed.
+
+(* element access, with the premise "the array lies inside the frame" *)
+Theorem element_agrees_in_segment di m s g sg cs n bs0 k base es bs idxs cidx c :
+  in_frame s g sg cs -> not_const di cs n ->
+  main_type di n = TArray bs0 (TBuiltin k) ->
+  has_key (d_globals di) n = false ->
+  local_var_idx (d_env di) (r_params (find_routine di cs)) (r_locals (find_routine di cs)) n = Some base ->
+  0 <= base ->
+  nth_error (s_cells sg) (Z.to_nat base) = Some None ->
+  has_header (s_cells sg) base es bs -> bs <> [] ->
+  Forall (fun b => fst b <= snd b) bs -> 0 < es ->
+  base + header_size bs + array_cells es bs <= Z.of_nat (length (s_cells sg)) ->
+  elem_index base es bs idxs = Some cidx ->
+  nth_error (s_cells sg) (Z.to_nat cidx) = Some (Some c) ->
+  (cell_ty c =? 7) = false ->
+  dbg_print di s (ELv n (map ilit idxs) []) = DVal (pv_of c) /\
+  forall s1 rest, heap s1 = heap s -> stack s1 = CRef g base :: map CL (rev idxs) ++ rest ->
+    exec m (IArridx (rank bs)) s1 = R tt (set_stack s1 (CRef g cidx :: rest)) /\
+    exec m (IDeref (cell_ty c)) (set_stack s1 (CRef g cidx :: rest)) = R tt (set_stack s1 (c :: rest)).
+Proof.
+  intros Hf Hc Ht Hg Hl Hb Hres Hh Hne Hbs Hes Hfit Hei Hcell Hty.
+  pose proof Hf as (Hcur & Hg0 & Hs & _).
+  destruct (read_sub_total (heap s) g sg es Hg0 Hs Hes bs (base + header_size bs) Hbs) as (t & Ht').
+  - unfold header_size, rank. lia.
+  - unfold array_cells in Hfit. lia.
+  - eapply element_agrees; eauto.
+Qed.
+
+(* a never-assigned element: the debugger shows the default the machine's deref materialises *)
+Theorem element_unset_default di s g sg cs n bs0 k base es bs idxs cidx t :
+  in_frame s g sg cs -> not_const di cs n ->
+  main_type di n = TArray bs0 (TBuiltin k) ->
+  has_key (d_globals di) n = false ->
+  local_var_idx (d_env di) (r_params (find_routine di cs)) (r_locals (find_routine di cs)) n = Some base ->
+  0 <= base ->
+  nth_error (s_cells sg) (Z.to_nat base) = Some None ->
+  has_header (s_cells sg) base es bs -> bs <> [] ->
+  Forall (fun b => fst b <= snd b) bs -> 0 < es ->
+  read_sub (cell_leaf (heap s) g) es bs (base + header_size bs) = Ok t ->
+  elem_index base es bs idxs = Some cidx ->
+  nth_error (s_cells sg) (Z.to_nat cidx) = Some None ->
+  1 <= k <= 5 ->
+  dbg_print di s (ELv n (map ilit idxs) []) = DVal (pv_of (default_cell k)).
+Proof.
+  intros Hf Hc Ht Hg Hl Hb Hres Hh Hne Hbs Hes Hrd Hei Hcell Hk.
+  pose proof Hf as (Hcur & Hg0 & Hs & _).
+  pose proof (elem_index_in_array base es bs idxs cidx Hbs Hes Hei) as [Hlo _].
+  assert (Hci : 0 <= cidx) by (unfold header_size, rank in Hlo; lia).
+  unfold dbg_print. rewrite deval_lv, (eval_lvalue_var di s g sg cs) by assumption.
+  unfold eval_var. rewrite Hg, Hl.
+  rewrite (get_cell_ok (heap s) g base sg None) by assumption.
+  rewrite Ht.
+  rewrite (read_array_ok (heap s) (d_env di) k g sg base es bs t) by assumption.
+  cbn [rbind].
+  unfold elem_index in Hei. destruct (elem_number bs idxs) as [num|] eqn:En; [|discriminate].
+  inversion Hei; subst cidx; clear Hei.
+  assert (Hidx : is_nil idxs = false).
+  { destruct idxs; [|reflexivity]. destruct bs as [|[a b] r]; [congruence | discriminate En]. }
+  rewrite !is_nil_map, Hidx. cbn [negb].
+  rewrite idx_values_lits. cbn [rbind]. rewrite idx_ints_lits. cbn [rbind].
+  unfold array_at. rewrite (elem_number_length _ _ _ En), Nat.eqb_refl. cbn [negb].
+  destruct (read_sub_at _ _ _ _ _ _ _ Hne Hrd En) as (x & Hx & Ha).
+  rewrite Ha. cbn [rbind].
+  unfold cell_leaf in Hx.
+  rewrite (get_cell_ok (heap s) g _ sg None Hg0 Hs Hci Hcell) in Hx.
+  cbn [rbind] in Hx. inversion Hx; subst x.
+  assert (Hk' : k = 1 \/ k = 2 \/ k = 3 \/ k = 4 \/ k = 5) by lia.
+  destruct Hk' as [-> | [-> | [-> | [-> | ->]]]]; reflexivity.
+Qed.
+
+(* wrong number of subscripts, or a subscript outside lbound..ubound: EvalError *)
+Theorem out_of_range_eval_error di s g sg cs n bs0 k base es bs idxs t :
+  in_frame s g sg cs -> not_const di cs n ->
+  main_type di n = TArray bs0 (TBuiltin k) ->
+  has_key (d_globals di) n = false ->
+  local_var_idx (d_env di) (r_params (find_routine di cs)) (r_locals (find_routine di cs)) n = Some base ->
+  0 <= base ->
+  nth_error (s_cells sg) (Z.to_nat base) = Some None ->
+  has_header (s_cells sg) base es bs -> bs <> [] ->
+  read_sub (cell_leaf (heap s) g) es bs (base + header_size bs) = Ok t ->
+  idxs <> [] ->
+  elem_number bs idxs = None ->
+  dbg_print di s (ELv n (map ilit idxs) []) = DEvalError.
+Proof.
+  intros Hf Hc Ht Hg Hl Hb Hres Hh Hne Hrd Hidx En.
+  pose proof Hf as (Hcur & Hg0 & Hs & _).
+  unfold dbg_print. rewrite deval_lv, (eval_lvalue_var di s g sg cs) by assumption.
+  unfold eval_var. rewrite Hg, Hl.
+  rewrite (get_cell_ok (heap s) g base sg None) by assumption.
+  rewrite Ht.
+  rewrite (read_array_ok (heap s) (d_env di) k g sg base es bs t) by assumption.
+  cbn [rbind].
+  assert (Hn : is_nil idxs = false) by (destruct idxs; [congruence | reflexivity]).
+  rewrite !is_nil_map, Hn. cbn [negb].
+  rewrite idx_values_lits. cbn [rbind]. rewrite idx_ints_lits. cbn [rbind].
+  unfold array_at.
+  destruct (Nat.eqb (length idxs) (length bs)) eqn:El; cbn [negb]; [|reflexivity].
+  apply Nat.eqb_eq in El.
+  rewrite (read_sub_oor _ _ _ _ _ _ Hne Hrd El En). reflexivity.
+Qed.
+
+(* ================================================================== *)
+(* 5. arithmetic: over numeric leaves that hold a value of their       *)
+(*    static type, the debugger computes exactly what the compiler's   *)
+(*    constant folder computes on the values read                      *)
+
+Section FoldTie.
+Variable di : dbginfo.
+Variable s : st.
+Variable rho : str -> Z * pyval.      (* static type and value of each variable *)
+
+Definition good_var (n : str) : Prop :=
+  lv_type di n false [] = Some (fst (rho n)) /\
+  is_num (fst (rho n)) = true /\
+  eval_lvalue di s n [] [] = XV (snd (rho n)) /\
+  py_type_conv (fst (rho n)) (snd (rho n)) = FVal (snd (rho n)).
+
+Fixpoint to_c (e : dexpr) : cexpr :=
+  match e with
+  | ENum ty v => CNum ty v
+  | EStr t => CStrLit t
+  | ELv n _ _ => CNum (fst (rho n)) (snd (rho n))
+  | EBin op l r => CBin op (to_c l) (to_c r)
+  | EUn op a => CUn op (to_c a)
+  | EParen a => CParen (to_c a)
+  end.
+
+Fixpoint num_expr (e : dexpr) : Prop :=
+  match e with
+  | ENum ty _ => is_num ty = true
+  | EStr _ => False
+  | ELv n idx path => idx = [] /\ path = [] /\ good_var n
+  | EBin _ l r => num_expr l /\ num_expr r
+  | EUn _ a => num_expr a
+  | EParen a => num_expr a
+  end.
+
+Lemma is_num_not6 t : is_num t = true -> (t =? 6) = false.
+Proof. intro H. destruct (is_num_cases t H) as [-> | [-> | [-> | ->]]]; reflexivity. Qed.
+
+Lemma bin_type_num op lt rt : is_num lt = true -> is_num rt = true -> is_num (bin_type op lt rt) = true.
+Proof.
+  intros Hl Hr.
+  destruct (is_num_cases lt Hl) as [-> | [-> | [-> | ->]]];
+  destruct (is_num_cases rt Hr) as [-> | [-> | [-> | ->]]]; destruct op; reflexivity.
+Qed.
+
+Lemma un_type_num op t : is_num t = true -> is_num (un_type op t) = true.
+Proof.
+  intro H. destruct (is_num_cases t H) as [-> | [-> | [-> | ->]]]; destruct op; reflexivity.
+Qed.
+
+Lemma dbin_type_num op lt rt : is_num lt = true -> is_num rt = true -> dbin_type op lt rt = bin_type op lt rt.
+Proof. intros Hl Hr. unfold dbin_type. rewrite (is_num_not6 lt Hl), (is_num_not6 rt Hr). reflexivity. Qed.
+
+Theorem deval_is_fold : forall e, num_expr e ->
+  dtype di e = Some (static_type (to_c e)) /\
+  is_num (static_type (to_c e)) = true /\
+  deval di s e = XF (fold_eval (to_c e)).
+Proof.
+  induction e as [ty v | t | n idx path | op l IHl r IHr | op a IHa | a IHa]; cbn [num_expr]; intro H.
+  - repeat split; try assumption; reflexivity.
+  - contradiction.
+  - destruct H as (-> & -> & (Ht & Hn & Hv & Hc)).
+    repeat split; [exact Ht | exact Hn |].
+    rewrite deval_lv. cbn [map]. rewrite Hv. cbn [to_c fold_eval]. rewrite Hc. reflexivity.
+  - destruct H as [H1 H2]. destruct (IHl H1) as (Tl & Nl & El). destruct (IHr H2) as (Tr & Nr & Er).
+    cbn [dtype to_c static_type]. rewrite Tl, Tr.
+    rewrite (dbin_type_num op _ _ Nl Nr).
+    repeat split; [apply bin_type_num; assumption|].
+    cbn [deval fold_eval]. rewrite Tl, Tr, Nl, Nr. cbn [andb].
+    rewrite (dbin_type_num op _ _ Nl Nr), El, Er. cbn [xbind].
+    destruct (coerce_res (bin_type op (static_type (to_c l)) (static_type (to_c r))) (fold_eval (to_c l)));
+      cbn [vbind fbind xbind]; try reflexivity.
+    destruct (coerce_res (bin_type op (static_type (to_c l)) (static_type (to_c r))) (fold_eval (to_c r)));
+      cbn [vbind fbind]; reflexivity.
+  - destruct (IHa H) as (Ta & Na & Ea).
+    cbn [dtype to_c static_type]. rewrite Ta. cbn [option_map].
+    repeat split; [apply un_type_num; assumption|].
+    cbn [deval fold_eval]. rewrite Ta, Na, Ea. reflexivity.
+  - destruct (IHa H) as (Ta & Na & Ea). cbn [dtype to_c static_type deval fold_eval]. auto.
+Qed.
+
+Corollary dbg_print_is_fold e : num_expr e -> dbg_print di s e = dres_of (XF (fold_eval (to_c e))).
+Proof. intro H. unfold dbg_print. destruct (deval_is_fold e H) as (_ & _ & ->). reflexivity. Qed.
+
+End FoldTie.
+
+(* a scalar INTEGER local variable holding z is a good leaf *)
+Lemma int_local_good di s g sg cs rho n idx z :
+  in_frame s g sg cs -> not_const di cs n ->
+  main_type di n = TBuiltin 1 ->
+  has_key (d_globals di) n = false ->
+  local_var_idx (d_env di) (r_params (find_routine di cs)) (r_locals (find_routine di cs)) n = Some idx ->
+  0 <= idx ->
+  nth_error (s_cells sg) (Z.to_nat idx) = Some (Some (CI z)) ->
+  rho n = (1, PInt z) ->
+  good_var di s rho n.
+Proof.
+  intros Hf Hc Ht Hg Hl Hi Hcell Hr. unfold good_var. rewrite Hr. cbn [fst snd].
+  repeat split.
+  - unfold lv_type. rewrite Ht. reflexivity.
+  - rewrite (eval_lvalue_var di s g sg cs) by assumption.
+    unfold eval_var. rewrite Hg, Hl.
+    destruct Hf as (Hcur & Hg0 & Hs & _).
+    rewrite (get_cell_ok (heap s) g idx sg (Some (CI z))) by assumption.
+    rewrite Ht. reflexivity.
+Qed.
+
+Local Opaque wrap.
+
+(* the folder's value on two INTEGER operands is an int *)
+Lemma fold_eval_int_shape op a b v : In op int_ops ->
+  fold_eval (CBin op (CNum 1 (PInt a)) (CNum 1 (PInt b))) = FVal v -> exists x, v = PInt x.
+Proof.
+  intros Hop.
+  destruct op; cbn in Hop; try (exfalso; intuition discriminate); clear Hop;
+    cbn -[wrap Z.land Z.lor Z.lxor Z.lnot Z.modulo Z.div Z.mul Z.add Z.sub];
+    repeat match goal with |- context [if ?c then _ else _] => destruct c end;
+    intro H; inversion H; eauto.
+Qed.
+
+(* INTEGER x INTEGER, the 16 operators for which the folder is proved sound
+   (FoldProofs.fold_sound_int): what the debugger prints is what the program
+   computes *)
+Theorem int_binop_agrees di m s g sg cs rho x y ix iy op a b :
+  In op int_ops ->
+  in_frame s g sg cs -> not_const di cs x -> not_const di cs y ->
+  main_type di x = TBuiltin 1 -> main_type di y = TBuiltin 1 ->
+  has_key (d_globals di) x = false -> has_key (d_globals di) y = false ->
+  local_var_idx (d_env di) (r_params (find_routine di cs)) (r_locals (find_routine di cs)) x = Some ix ->
+  local_var_idx (d_env di) (r_params (find_routine di cs)) (r_locals (find_routine di cs)) y = Some iy ->
+  0 <= ix -> 0 <= iy ->
+  nth_error (s_cells sg) (Z.to_nat ix) = Some (Some (CI a)) ->
+  nth_error (s_cells sg) (Z.to_nat iy) = Some (Some (CI b)) ->
+  in_int a = true -> in_int b = true ->
+  rho x = (1, PInt a) -> rho y = (1, PInt b) ->
+  let e := EBin op (ELv x [] []) (ELv y [] []) in
+  let c := CBin op (CNum 1 (PInt a)) (CNum 1 (PInt b)) in
+  (* the debugger = the folder on the values read *)
+  dbg_print di s e = dres_of (XF (fold_eval c)) /\
+  (* the variable reads push the cells the literal pushes of [c] push *)
+  (exists i j, push_lit 1 (PInt a) = CgOk [i] /\ push_lit 1 (PInt b) = CgOk [j] /\
+     (forall s1, heap s1 = heap s -> cur s1 = cur s -> exec m (IRead true 1 ix) s1 = exec m i s1) /\
+     (forall s1, heap s1 = heap s -> cur s1 = cur s -> exec m (IRead true 1 iy) s1 = exec m j s1)) /\
+  (* hence a printed value is the cell the program computes *)
+  (forall v, dbg_print di s e = DVal v -> exists cell, rt_eval c = RVal cell /\ pv_of cell = v).
+Proof.
+  intros Hop Hf Hcx Hcy Htx Hty Hgx Hgy Hlx Hly Hix Hiy Hca Hcb Ha Hb Hrx Hry e c.
+  assert (Gx : good_var di s rho x) by (eapply int_local_good; eauto).
+  assert (Gy : good_var di s rho y) by (eapply int_local_good; eauto).
+  assert (Hnum : num_expr di s rho e) by (unfold e; cbn [num_expr]; split; (split; [reflexivity | split; [reflexivity | assumption]])).
+  assert (Hc : to_c rho e = c) by (unfold e, c; cbn [to_c]; rewrite Hrx, Hry; reflexivity).
+  assert (Hd : dbg_print di s e = dres_of (XF (fold_eval c))) by (rewrite <- Hc; apply dbg_print_is_fold; exact Hnum).
+  split; [exact Hd|]. split.
+  - destruct (exec_lit_int m 1 a (or_introl eq_refl) Ha) as (i & Pi & Ei).
+    destruct (exec_lit_int m 1 b (or_introl eq_refl) Hb) as (j & Pj & Ej).
+    exists i, j. split; [exact Pi|]. split; [exact Pj|].
+    destruct Hf as (Hcur & Hg0 & Hs & _).
+    split; intros s1 Hh1 Hc1.
+    + rewrite Ei. change 1 with (cell_ty (CI a)) at 1.
+      rewrite (read_set_pure m true (cell_ty (CI a)) ix s1 g sg (CI a)); try assumption; try reflexivity.
+      * simpl. rewrite Hc1. exact Hcur.
+      * rewrite Hh1. exact Hs.
+    + rewrite Ej. change 1 with (cell_ty (CI b)) at 1.
+      rewrite (read_set_pure m true (cell_ty (CI b)) iy s1 g sg (CI b)); try assumption; try reflexivity.
+      * simpl. rewrite Hc1. exact Hcur.
+      * rewrite Hh1. exact Hs.
+  - intros v Hv. rewrite Hd in Hv.
+    destruct (fold_eval c) as [v0| | | |k0|] eqn:Ef; cbn [dres_of] in Hv; try discriminate.
+    2: { destruct k0; discriminate. }
+    inversion Hv; subst v0; clear Hv.
+    destruct (fold_eval_int_shape op a b v Hop Ef) as (z & ->).
+    destruct (fold_sound_int op a b Hop Ha Hb) as (S1 & _ & _).
+    assert (Hs : static_type c = 1 \/ static_type c = 2).
+    { unfold c. cbn [static_type]. destruct op; cbn in Hop; try (exfalso; intuition discriminate); auto. }
+    assert (Hfold : fold c = Folded (static_type c) (PInt z)).
+    { unfold fold. fold c in Ef. rewrite Ef. destruct Hs as [-> | ->]; reflexivity. }
+    destruct (S1 _ _ Hfold) as (cell & Hcv & Hrt).
+    exists cell. split; [exact Hrt|].
+    destruct Hs as [Hs | Hs]; rewrite Hs in Hcv; cbn in Hcv; inversion Hcv; reflexivity.
+Qed.
